@@ -121,18 +121,21 @@ Proof.
   - inversion Hx. reflexivity.
 Qed.
 
-(* which frame of db2 a frame of db1 is compared with *)
-Definition partner (f1 : frame) (db2 : matrix) : option frame :=
-  match frame_by_name (fr_name f1) db2 with
-  | Some f2 => Some f2
-  | None => frame_by_id f1 db2
+(* which frame of `other` a frame f of `own` is compared with *)
+Definition partner (own other : matrix) (f : frame) : option frame :=
+  match frame_by_name (fr_name f) other with
+  | Some g => Some g
+  | None => match frame_by_id f other with
+            | None => None
+            | Some g => match frame_by_name (fr_name g) own with Some _ => None | None => Some g end
+            end
   end.
 Definition db_kids (ign : ignore) (db1 db2 : matrix) : list cres :=
-  map (fun f1 => match partner f1 db2 with
+  map (fun f1 => match partner db1 db2 f1 with
                  | Some f2 => compare_frame_t ign f1 f2
                  | None => leaf RDeleted TFRAME (fr_name f1)
                  end) (m_frames db1)
-  ++ flat_map (fun f2 => match partner f2 db1 with
+  ++ flat_map (fun f2 => match partner db2 db1 f2 with
                          | None => [leaf RAdded TFRAME (fr_name f2)]
                          | Some _ => []
                          end) (m_frames db2)
@@ -162,10 +165,12 @@ Proof.
     intros x y _ Hx. cbn beta in Hx. unfold partner.
     destruct (frame_by_name (fr_name x) b) as [f2|].
     + apply compare_frame_some in Hx. exact Hx.
-    + destruct (frame_by_id x b) as [f2|]; [apply compare_frame_some in Hx; exact Hx | inversion Hx; reflexivity].
+    + destruct (frame_by_id x b) as [f2|]; [|inversion Hx; reflexivity].
+      destruct (frame_by_name (fr_name f2) a); [inversion Hx; reflexivity | apply compare_frame_some in Hx; exact Hx].
   - f_equal.
     + apply flat_map_ext_in. intros f2 _. unfold partner.
-      destruct (frame_by_name (fr_name f2) a); [reflexivity|]. destruct (frame_by_id f2 a); reflexivity.
+      destruct (frame_by_name (fr_name f2) a); [reflexivity|]. destruct (frame_by_id f2 a) as [g|]; [|reflexivity].
+      destruct (frame_by_name (fr_name g) b); reflexivity.
     + f_equal. f_equal. f_equal. f_equal. destruct (ig_vt ign); [reflexivity|].
       unfold dict_kids. f_equal. rewrite map_as_flat_map. apply flat_map_ext_in. intros [k t] _. cbn.
       destruct (lookup k (m_vtables b)); reflexivity.
@@ -195,11 +200,11 @@ Proof.
   apply sequence_map_all. intros f1 Hf1.
   assert (Hany : forall f2, In f2 (m_frames b) -> compare_frame ign f1 f2 <> None).
   { intros f2 Hf2. apply compare_frame_defined; intros s Hs; [apply (La f1 s Hf1 Hs) | apply (Lb f2 s Hf2 Hs)]. }
-  unfold frame_by_name, frame_by_id.
-  destruct (find _ (m_frames b)) as [f2|] eqn:E1.
-  - apply find_some in E1. apply Hany. apply E1.
-  - destruct (find (fun g => arb_eqb g f1) (m_frames b)) as [f2|] eqn:E2; [|discriminate].
-    apply find_some in E2. apply Hany. apply E2.
+  destruct (frame_by_name (fr_name f1) b) as [f2|] eqn:E1.
+  - unfold frame_by_name in E1. apply find_some in E1. apply Hany. apply E1.
+  - destruct (frame_by_id f1 b) as [f2|] eqn:E2; [|discriminate].
+    destruct (frame_by_name (fr_name f2) a); [discriminate|].
+    unfold frame_by_id in E2. apply find_some in E2. apply Hany. apply E2.
 Qed.
 
 (* ------------------------------------------------------------------ quiet <-> agree, piece by piece *)
@@ -403,58 +408,51 @@ Proof.
 Qed.
 
 (* ------------------------------------------------------------------ frames of the matrix: partner = same name *)
-Lemma partner_quiet_same_name : forall ign f1 db2 f2, partner f1 db2 = Some f2 ->
-  all_equal (compare_frame_t ign f1 f2) = true -> frame_by_name (fr_name f1) db2 = Some f2.
+Lemma partner_in : forall own other f g, partner own other f = Some g -> In g (m_frames other).
 Proof.
-  intros ign f1 db2 f2 Hp Hq. unfold partner in Hp. destruct (frame_by_name (fr_name f1) db2) as [g|] eqn:E; [exact Hp|].
-  exfalso. apply frame_quiet_name in Hq. unfold frame_by_id in Hp. apply find_some in Hp. destruct Hp as [Hin _].
+  intros own other f g H. unfold partner in H.
+  destruct (frame_by_name (fr_name f) other) as [g'|] eqn:E.
+  - inversion H. subst. unfold frame_by_name in E. apply find_some in E. apply E.
+  - destruct (frame_by_id f other) as [g'|] eqn:Ei; [|discriminate].
+    destruct (frame_by_name (fr_name g') own); [discriminate|]. inversion H. subst.
+    unfold frame_by_id in Ei. apply find_some in Ei. apply Ei.
+Qed.
+Lemma partner_quiet_same_name : forall ign own other f1 f2, partner own other f1 = Some f2 ->
+  all_equal (compare_frame_t ign f1 f2) = true -> frame_by_name (fr_name f1) other = Some f2.
+Proof.
+  intros ign own other f1 f2 Hp Hq. pose proof (partner_in _ _ _ _ Hp) as Hin. unfold partner in Hp.
+  destruct (frame_by_name (fr_name f1) other) as [g|] eqn:E; [exact Hp|].
+  exfalso. apply frame_quiet_name in Hq.
   unfold frame_by_name in E. apply (find_name_none fr_name) in E. apply E. rewrite Hq. apply in_map. exact Hin.
 Qed.
 
 Lemma frames_quiet : forall ign a b,
   NoDup (map fr_name (m_frames a)) -> NoDup (map fr_name (m_frames b)) ->
-  (ids_unique b \/ same_names fr_name (m_frames a) (m_frames b)) ->
-  ((forallb all_equal (map (fun f1 => match partner f1 b with
+  ((forallb all_equal (map (fun f1 => match partner a b f1 with
                                       | Some f2 => compare_frame_t ign f1 f2
                                       | None => leaf RDeleted TFRAME (fr_name f1)
                                       end) (m_frames a)) = true /\
-    forallb all_equal (flat_map (fun f2 => match partner f2 a with
+    forallb all_equal (flat_map (fun f2 => match partner b a f2 with
                                            | None => [leaf RAdded TFRAME (fr_name f2)]
                                            | Some _ => []
                                            end) (m_frames b)) = true)
    <-> (same_names fr_name (m_frames a) (m_frames b) /\
         pairwise fr_name (fun x y => all_equal (compare_frame_t ign x y) = true) (m_frames a) (m_frames b))).
 Proof.
-  intros ign a b Na Nb Ub.
+  intros ign a b Na Nb.
   rewrite <- (named_quiet fr_name (fun x y => all_equal (compare_frame_t ign x y) = true) _ _ Na Nb).
   rewrite forallb_map, forallb_flat_map. split; intros [H1 H2].
   - assert (G1 : forall x, In x (m_frames a) -> exists y,
                find (fun z => fr_name z =? fr_name x) (m_frames b) = Some y /\ all_equal (compare_frame_t ign x y) = true).
-    { intros x Hx. specialize (H1 x Hx). destruct (partner x b) as [y|] eqn:Ep; [|discriminate].
-      exists y. split; [|exact H1]. apply (partner_quiet_same_name ign x b y Ep H1). }
+    { intros x Hx. specialize (H1 x Hx). destruct (partner a b x) as [y|] eqn:Ep; [|discriminate].
+      exists y. split; [|exact H1]. apply (partner_quiet_same_name ign a b x y Ep H1). }
     split; [exact G1|].
     intros y Hy. specialize (H2 y Hy). unfold partner in H2. change (frame_by_name (fr_name y) a <> None).
-    destruct Ub as [Ub|SN].
-    2:{ assert (Hn : In (fr_name y) (map fr_name (m_frames a))) by (apply SN; apply in_map; exact Hy).
-        destruct (find_name_in fr_name _ _ Hn) as [x Ex]. unfold frame_by_name. rewrite Ex. discriminate. }
     destruct (frame_by_name (fr_name y) a) as [x0|] eqn:En; [discriminate|].
     destruct (frame_by_id y a) as [x|] eqn:Ei; [|cbn in H2; discriminate]. exfalso.
-    (* x carries y's identifier; x's quiet partner y' by name carries it too; identifiers are unique in b *)
-    unfold frame_by_id in Ei. apply find_some in Ei. destruct Ei as [Hx Harb].
-    destruct (G1 x Hx) as [y' [Ey' Q]]. apply find_name_some in Ey'. destruct Ey' as [Hy' Hn'].
-    assert (Ea : arb y' = arb y).
-    { apply frame_quiet_arb in Q. rewrite <- Q. unfold arb_eqb in Harb. apply andb_true_iff in Harb.
-      destruct Harb as [A1 A2]. apply Z.eqb_eq in A1. apply (proj1 (booleqb_eq _ _)) in A2. unfold arb. congruence. }
-    assert (y' = y).
-    { unfold ids_unique in Ub. clear - Ub Hy Hy' Ea. induction (m_frames b) as [|z l IH]; [contradiction|].
-      cbn in Ub. inversion Ub as [|? ? Hnot Ub']. subst.
-      destruct Hy as [Hy|Hy], Hy' as [Hy'|Hy']; subst.
-      - reflexivity.
-      - exfalso. apply Hnot. rewrite <- Ea. apply in_map. exact Hy'.
-      - exfalso. apply Hnot. rewrite Ea. apply in_map. exact Hy.
-      - apply IH; assumption. }
-    subst y'. unfold frame_by_name in En. apply (find_name_none fr_name) in En. apply En.
-    rewrite Hn'. apply in_map. exact Hx.
+    (* x would be paired with y by identifier, but x has a partner by name in b *)
+    unfold frame_by_id in Ei. apply find_some in Ei. destruct Ei as [Hx _].
+    destruct (G1 x Hx) as [y' [Ey' _]]. unfold frame_by_name in H2. rewrite Ey' in H2. cbn in H2. discriminate.
   - split.
     + intros x Hx. destruct (H1 x Hx) as [y [Ey Q]]. unfold partner, frame_by_name. rewrite Ey. exact Q.
     + intros y Hy. specialize (H2 y Hy). unfold partner, frame_by_name.
@@ -463,15 +461,14 @@ Qed.
 
 (* ------------------------------------------------------------------ the whole matrix *)
 Lemma db_quiet : forall ign a b, wf_matrix a -> wf_matrix b ->
-  (ids_unique b \/ same_names fr_name (m_frames a) (m_frames b)) ->
   (forallb all_equal (db_kids ign a b) = true <-> agree ign a b).
 Proof.
-  intros ign a b Wa Wb Ub.
+  intros ign a b Wa Wb.
   destruct Wa as [Nfa [Nea [Ffa [Fea [Naa [Nga [Nda [Nfda [Nsa [Nva Fva]]]]]]]]]].
   destruct Wb as [Nfb [Neb [Ffb [Feb [Nab [Ngb [Ndb [Nfdb [Nsb [Nvb Fvb]]]]]]]]]].
   unfold db_kids, agree. rewrite !forallb_app, !andb_true_iff.
   (* frames *)
-  pose proof (frames_quiet ign a b Nfa Nfb Ub) as HF.
+  pose proof (frames_quiet ign a b Nfa Nfb) as HF.
   assert (HFP : pairwise fr_name (fun x y => all_equal (compare_frame_t ign x y) = true) (m_frames a) (m_frames b)
                 <-> pairwise fr_name (frame_agree ign) (m_frames a) (m_frames b)).
   { apply pairwise_iff. intros x y Hx Hy E. apply frame_quiet; [| |exact E].
@@ -507,24 +504,20 @@ Proof.
 Qed.
 
 Lemma compare_db_t_quiet : forall ign a b, wf_matrix a -> wf_matrix b ->
-  (ids_unique b \/ same_names fr_name (m_frames a) (m_frames b)) ->
   (reports_nothing (propagate (compare_db_t ign a b)) <-> agree ign a b).
 Proof.
-  intros ign a b Wa Wb U. rewrite reports_nothing_propagate. unfold compare_db_t. cbn [kids_of]. apply db_quiet; assumption.
+  intros ign a b Wa Wb. rewrite reports_nothing_propagate. unfold compare_db_t. cbn [kids_of]. apply db_quiet; assumption.
 Qed.
 
 (* ------------------------------------------------------------------ statements about compare_db itself *)
-Lemma no_difference_iff_agree : forall ign a b r, wf_matrix a -> wf_matrix b -> ids_unique b ->
+Lemma no_difference_iff_agree : forall ign a b r, wf_matrix a -> wf_matrix b ->
   compare_db ign a b = Some r -> (reports_nothing r <-> agree ign a b).
 Proof.
-  intros ign a b r Wa Wb U H. apply compare_db_some in H. subst r. apply compare_db_t_quiet; auto.
+  intros ign a b r Wa Wb H. apply compare_db_some in H. subst r. apply compare_db_t_quiet; auto.
 Qed.
 Lemma agree_implies_no_difference : forall ign a b r, wf_matrix a -> wf_matrix b ->
   compare_db ign a b = Some r -> agree ign a b -> reports_nothing r.
-Proof.
-  intros ign a b r Wa Wb H Ag. apply compare_db_some in H. subst r.
-  apply compare_db_t_quiet; auto. right. destruct Ag as [S _]. exact S.
-Qed.
+Proof. intros ign a b r Wa Wb H Ag. apply (no_difference_iff_agree ign a b r Wa Wb H). exact Ag. Qed.
 Lemma root_result_none_iff : forall ign a b r, compare_db ign a b = Some r ->
   (result_of r = RNone <-> reports_nothing r).
 Proof. intros ign a b r H. apply compare_db_some in H. subst r. unfold compare_db_t. apply root_none_iff. Qed.
